@@ -402,6 +402,11 @@ class WebSocketApp:
 
                 _logging.info("Websocket connected")
 
+                if ping_timeout and getdefaulttimeout() is None:
+                    # a peer that falls silent inside a frame must not keep
+                    # read() from coming back to the ping/pong check
+                    self.sock.settimeout(ping_timeout)
+
                 if self.ping_interval:
                     self._start_ping_thread()
 
@@ -430,6 +435,12 @@ class WebSocketApp:
 
             try:
                 op_code, frame = self.sock.recv_data_frame(True)
+            except WebSocketTimeoutException:
+                if ping_timeout and getdefaulttimeout() is None:
+                    # the rest of the frame is late: what was read stays
+                    # buffered, check() judges whether the peer is alive
+                    return True
+                raise
             except (
                 WebSocketConnectionClosedException,
                 KeyboardInterrupt,
